@@ -393,3 +393,16 @@ def _writer_blocked_reader(s, prog):
                     for k in range(j, i)):
                 return True
     return False
+
+
+def to_trace(prog):
+    """The same run with the scheduler's decisions written out: every context
+    switch as [thread, its local step, next thread]."""
+    import copy
+    out = execute(prog)
+    tr = out.get("trace")
+    if tr is None:
+        return None
+    p2 = copy.deepcopy(prog)
+    p2["sched"] = dict(kind="trace", seed=0, trace=[list(x) for x in tr])
+    return p2
